@@ -33,6 +33,7 @@ pub mod btree;
 pub mod englib;
 pub mod pager;
 pub mod vacuum;
+pub mod plan;
 
 pub fn all() -> Vec<StreamDef> {
     vec![
@@ -49,6 +50,9 @@ pub fn all() -> Vec<StreamDef> {
         btree::def(),
         pager::def(),
         vacuum::def(),
+        plan::def(),
+        plan::def_lim(),
+        plan::def_where(),
     ]
 }
 
